@@ -8,9 +8,22 @@ for programs without AppClock); the two traces must agree per routine and
 per bundle.  Determinism: the NRT result of every program is recomputed in
 pools with other PYTHONHASHSEED values and compared; the random values a
 seeded routine logs must not change when the other routine's draws are
-removed."""
+removed.
+
+Audit widening: statements the grammar did not have (zero / int / bool
+yields, send_msg, negative / zero / None latencies, completion bundles in
+blobs, rich message arguments, functions and awakeables scheduled with
+sched / sched_abs incl. infinite times, raise, reset, next, unhang, FlowVar,
+rand_state, slower tempo, etempo, meter and bar queries, play with inherited
+clock / default quant / phase, clear, TempoClock.stop), both routines on
+AppClock, every builtin random function, seed values, inherited generators,
+main-thread actions before the start; the clock that resumes a routine, the
+arguments of every message and (single clock) the order of the packets are
+compared as well.  The extra statement kinds live in Run10 below.  Genuine
+differences found: known_findings.d/C10.json, fixes/C10-*.patch."""
 
 from mc import core
+from mc import rtprog
 from mc.engines import progenum
 from mc.oracles import osc10
 from mc.checks import c05, c07
@@ -21,6 +34,198 @@ MODNAME = 'mc.checks.c10'
 
 def REPLAY_MODE(v):
     return 'nrt'
+
+
+# ---------------------------------------------------------------------------
+# Statement kinds only this check needs (mc/rtprog.py is shared and is not
+# edited): a subclass of the interpreter that is put in place of rtprog.Run
+# for the duration of one run.
+#   ['rand', kind]            kind in X_RAND: the other builtin random functions
+#   ['rstate', 'save'|'restore']   routine.rand_state getter / setter
+#   ['etempo', cid, v]        TempoClock.etempo(v)
+#   ['tstop', cid]            TempoClock.stop() (the public method)
+#   ['sendc', L, l, tag]      send_bundle(L, ['/t', tag, [l, ['/u', tag]]]):
+#                             a completion *bundle* carried as a blob argument
+#   ['fwait', var]            v = yield from flowvar.value ; logs v
+#   ['fset', var, v]          flowvar.value = v
+#   ['sendx', L, tag]         send_bundle(L, ['/t', tag, None, True, 1.5, 'x',
+#                             [], ['/u', tag], b'ab']): every kind of argument
+#   ['sched'|'sched_abs', cid, 'inf', fid]   delta / time float('inf')
+#   ['qlog', cid]             logs bar(), beat_in_bar(), next_bar(),
+#                             time_to_next_beat(), next_time_on_grid(2, 0.5),
+#                             tempo, beat_dur, beats_per_bar (not
+#                             elapsed_beats(): physical time in RT)
+#   ['bpb', cid, v]           clock.beats_per_bar = v
+#   ['playnb', rid, cid]      clock.play_next_bar(routine)
+#   program key 'flowvars': [names]
+# ---------------------------------------------------------------------------
+
+X_RAND = {
+    'rand_f': lambda bi: bi.rand(1000.0),
+    'rand_neg': lambda bi: bi.rand(-1000),
+    'rand2': lambda bi: bi.rand2(1000),
+    'rand2_f': lambda bi: bi.rand2(1000.0),
+    'rand2_neg': lambda bi: bi.rand2(-1000),
+    'linrand': lambda bi: bi.linrand(1000),
+    'linrand_f': lambda bi: bi.linrand(1000.0),
+    'linrand_neg': lambda bi: bi.linrand(-1000),
+    'bilinrand': lambda bi: bi.bilinrand(1000),
+    'bilinrand_f': lambda bi: bi.bilinrand(1000.0),
+    'bilinrand_neg': lambda bi: bi.bilinrand(-1000),
+    'sum3rand': lambda bi: bi.sum3rand(1000.0),
+    'coin': lambda bi: bi.coin(0.5),
+    'rrand_f': lambda bi: bi.rrand(0.0, 1000.0),
+    'rrand_desc': lambda bi: bi.rrand(1000, 0),
+    'rrand_mixed': lambda bi: bi.rrand(0, 1000.0),
+    'exprand': lambda bi: bi.exprand(1.0, 1000.0),
+    'xrand': lambda bi: bi.xrand(1000, 3),
+    'xrand2': lambda bi: bi.xrand2(1000, 3),
+    'xrand2_f': lambda bi: bi.xrand2(1000.0),
+    'choices': lambda bi: bi.choices([1, 2, 3, 4, 5, 6, 7, 8], k=3),
+    'wchoices': lambda bi: bi.choices([1, 2, 3], [1, 2, 3]),
+    'scramble': lambda bi: bi.scramble(list(range(8))),
+    'table_rand': lambda bi: bi.table_rand([0.0, 1.0, 4.0, 9.0]),
+    'shuffle': None,          # in place, see Run10.do
+}
+X_OPS = ('rstate', 'etempo', 'tstop', 'sendc', 'fset', 'sendx', 'qlog', 'bpb',
+         'playnb')
+
+
+class Run10(rtprog.Run):
+    def setup(self):
+        self.flowvars = {}
+        self.saved_rstate = {}
+        super().setup()
+        from sc3.base.stream import FlowVar
+        for name in self.prog.get('flowvars', []):
+            self.flowvars[name] = FlowVar()
+
+    def _body(self, rid, stmts):
+        if not any(st[0] == 'fwait' for st in stmts):
+            return super()._body(rid, stmts)
+        run = self
+
+        # the interpreter's routine body (rtprog.Run._body) plus 'fwait'
+        def body(inval):
+            clock = inval[1] if isinstance(inval, tuple) else None
+            k = 0
+
+            def res():
+                nonlocal k
+                if clock is not None:
+                    run.ev('res', rid, k, run.now(), clock.seconds,
+                           clock.beats, run.late(), run.clockname(clock))
+                else:
+                    from sc3.base.main import main
+                    run.ev('res', rid, k, run.now(),
+                           main.current_tt._seconds, None, run.late(), None)
+                k += 1
+            res()
+            for st in stmts:
+                op = st[0]
+                if op == 'yield':
+                    back = yield st[1]
+                    if isinstance(back, tuple):
+                        clock = back[1]
+                    res()
+                elif op == 'yieldv':
+                    yield st[1]
+                    res()
+                elif op == 'wait':
+                    yield from run.conds[st[1]].wait()
+                    res()
+                elif op == 'fwait':
+                    v = yield from run.flowvars[st[1]].value
+                    res()
+                    run.ev('fval', rid, v if isinstance(
+                        v, (int, float, str, type(None))) else repr(v))
+                elif op == 'raise':
+                    raise ValueError(f'routine {rid}')
+                else:
+                    run.do(st, rid, clock)
+        body.__qualname__ = rid
+        return body
+
+    def do(self, st, who, clock=None):
+        op = st[0]
+        if op in ('sched', 'sched_abs') and st[2] == 'inf':
+            st = [op, st[1], float('inf'), st[3]]
+        if not (op in X_OPS or (op == 'rand' and st[1] in X_RAND)):
+            return super().do(st, who, clock)
+        from sc3.base.main import main
+        from sc3.base import builtins as bi
+        try:
+            if op == 'rand':
+                if st[1] == 'shuffle':
+                    v = list(range(8))
+                    bi.shuffle(v)
+                else:
+                    v = X_RAND[st[1]](bi)
+                self.ev('rand', who, v)
+            elif op == 'rstate':
+                if st[1] == 'save':
+                    self.saved_rstate[who] = main.current_tt.rand_state
+                else:
+                    main.current_tt.rand_state = self.saved_rstate[who]
+            elif op == 'etempo':
+                self.clocks[st[1]].etempo(st[2])
+            elif op == 'tstop':
+                self.clocks[st[1]].stop()
+            elif op == 'sendc':
+                self.ev('send', who, 'completion', st[3], self.now(),
+                        main.current_tt._seconds)
+                self._addr().send_bundle(
+                    st[1], ['/t', st[3], [st[2], ['/u', st[3]]]])
+            elif op == 'fset':
+                self.flowvars[st[1]].value = st[2]
+            elif op == 'sendx':
+                self.ev('send', who, 'rich', st[2], self.now(),
+                        main.current_tt._seconds)
+                self._addr().send_bundle(
+                    st[1], ['/t', st[2], None, True, 1.5, 'x', [],
+                            ['/u', st[2]], b'ab'])
+            elif op == 'qlog':
+                c = self.clocks[st[1]]
+                self.ev('qlog', who, [
+                    c.bar(), c.beat_in_bar(), c.next_bar(),
+                    c.time_to_next_beat(), c.next_time_on_grid(2, 0.5),
+                    c.tempo, c.beat_dur, c.beats_per_bar])
+            elif op == 'bpb':
+                self.clocks[st[1]].beats_per_bar = st[2]
+            elif op == 'playnb':
+                self.clocks[st[2]].play_next_bar(self.routines[st[1]])
+        except Exception as e:
+            if type(e).__name__ in ('Abort',):
+                raise
+            self.ev('raises', who, st, type(e).__name__, str(e)[:200])
+            if who in self.routines:
+                raise
+
+
+class _Swapped:
+    def __enter__(self):
+        self.old = rtprog.Run
+        rtprog.Run = Run10
+
+    def __exit__(self, *a):
+        rtprog.Run = self.old
+
+
+def run_nrt(prog):
+    """rtprog.run_nrt with the extended interpreter; an exception that
+    escapes main.process() is an observation, not a harness error."""
+    with _Swapped():
+        try:
+            return rtprog.run_nrt(prog)
+        except Exception as e:
+            return {'status': 'raises-' + type(e).__name__,
+                    'detail': str(e)[:200], 'trace': [], 'score': [],
+                    'raw': ''}
+
+
+def run_rt(prog, prefix):
+    with _Swapped():
+        return rtprog.run_rt(prog, prefix)
 
 
 # ---------------------------------------------------------------------------
@@ -71,11 +276,81 @@ B_BODIES = [
     [['send', 0.25, 90], ['yield', 0.5], ['send', 0, 90]],
 ]
 
+B_BODIES += [
+    # 9, 10: FlowVar waiter / setter (same-clock pairs only, like 4 and 5)
+    [['fwait', 'v0'], ['log']],
+    [['yield', 0.25], ['fset', 'v0', 5]],
+]
+
 CLOCK_PAIRS = [('s', 's'), ('s', 't2'), ('t2', 'a'), ('a', 's'),
                ('t2', 't2')]
+# pairs added by the audit: both routines on AppClock (A acts on B there)
+MORE_PAIRS = [('a', 'a')]
+
+X_FUNCS = {
+    'f0': {'returns': [0.25, None]},                    # re-schedules once
+    'f1': {'returns': [None]},
+    'f2': {'returns': [None], 'raises': [0], 'kind': 'awakeable'},
+}
 
 
-def build_prog(cA, cB, items, bbody, b_by_main):
+def ext_alphabet(cA, cB):
+    """Statements added by the audit (every item is used in bodies of <=2
+    statements together with the full alphabet)."""
+    E = [[['yield', 0]], [['yield', 1]], [['yieldv', True]],
+         [['sendm', 'TAG']], [['send', -1, 'TAG']], [['send', 0, 'TAG']],
+         [['sendb', None, 0.25, 'TAG']],
+         # nested time before the enclosing one: refused in both modes
+         [['sendb', 0.5, 0.25, 'TAG']],
+         [['sendc', 0.25, 0.5, 'TAG']], [['sendx', 0.25, 'TAG']],
+         [['raise']],
+         # plain functions / awakeables on the routine's own clock
+         [['sched', cA, 0.25, 'f0']], [['sched', cA, 0, 'f2']],
+         [['sched', cA, 'inf', 'f1']],         # never
+         [['rstate', 'save']], [['rstate', 'restore']]]
+    if cA != 'a':
+        E += [[['sched_abs', cA, 1.0, 'f1']], [['sched_abs', cA, 'inf', 'f1']]]
+    if cA == 't2':
+        # slower (pending tasks move later), and the elapsed-time variant
+        E += [[['tempo', 't2', 0.5]], [['etempo', 't2', 4.0]],
+              # bars: queries, a new meter, start at the next bar line
+              [['qlog', 't2']], [['bpb', 't2', 3]]]
+    if cA == cB:
+        E += [[['play', 'B', None, 0]],          # inherits A's clock
+              [['play', 'B', cB, None]],         # default quant
+              [['play', 'B', cB, [2, 0.5]]],     # quant and phase
+              [['play', 'B', cB, [2, -0.5]]],    # negative phase
+              [['reset', 'B']], [['next', 'B']],
+              [['unhang', 'c0']], [['signal', 'c0']], [['set', 'c0', True]],
+              [['fwait', 'v0']], [['fset', 'v0', 5]],
+              [['clear', cA]]]
+        if cB == 't2':
+            E += [[['playnb', 'B', 't2']]]
+    else:
+        # starting a routine on another clock is ordered (it cannot run
+        # before it is played); only used when main does not start B
+        E += [[['play', 'B', cB, 0]]]
+        if cA == 't2':
+            # A changes the tempo of its own clock while B is pending on a
+            # different one (the NRT queue is shared by all clocks)
+            E += [[['tempo', 't2', 4.0]]]
+    return E
+
+
+# in the quick tier every 2-statement body that pairs an added statement
+# with one of these is run; the other pairs are a seed-selected 1/8 slice
+def _is_context(item):
+    return item in ([['yield', 0.25]], [['yield', 0.5]], [['log']],
+                    [['rand', 'rrand']], [['pause', 'B']],
+                    [['play', 'B', 's', 0]], [['play', 'B', 't2', 0]],
+                    [['play', 'B', 'a', 0]], [['send', 0.25, 'TAG']])
+
+
+XB_MAIN = (1, 3, 4, 5, 8, 9, 10)      # B bodies used with added statements
+XB_BY_A = (1, 4, 8)
+
+
+def build_prog(cA, cB, items, bbody, b_by_main, ext=False):
     tag = [20]
 
     def fix(st):
@@ -94,20 +369,25 @@ def build_prog(cA, cB, items, bbody, b_by_main):
     clocks = {'s': ['system']}
     for c in (cA, cB):
         clocks[c] = c05.CLOCKSPEC[c]
-    return {'clocks': clocks, 'routines': {'A': a, 'B': b}, 'funcs': {},
-            'conds': ['c0'], 'actors': {'main': main}, 'horizon': 8.0}
+    p = {'clocks': clocks, 'routines': {'A': a, 'B': b}, 'funcs': {},
+         'conds': ['c0'], 'actors': {'main': main}, 'horizon': 8.0}
+    if ext:
+        p['funcs'] = X_FUNCS
+        p['flowvars'] = ['v0']
+        p['ext'] = True
+    return p
 
 
 def programs(tier, seed):
     """Yield (index, program).  Quick: A of <=2 statements exhaustively, plus
     a seed-selected 1/8 slice of the 3-statement bodies; thorough: all."""
     idx = 0
-    for cA, cB in CLOCK_PAIRS:
+    for cA, cB in CLOCK_PAIRS + MORE_PAIRS:
         alpha = full_alphabet(cA, cB)
         bodies = [[]] + [[a] for a in alpha] + \
             [[a, b] for a in alpha for b in alpha]
         three = [[a, b, c] for a in alpha for b in alpha for c in alpha]
-        for bi, bbody in enumerate(B_BODIES):
+        for bi, bbody in enumerate(B_BODIES[:9]):
             if cA != cB and bi in (4, 5):
                 continue
             for b_by_main in (True, False):
@@ -123,9 +403,180 @@ def programs(tier, seed):
                         yield idx, build_prog(cA, cB, items, bbody,
                                               b_by_main)
                         idx += 1
-    for p in two_clock_programs() + spawn_programs():
+    # bodies of <=2 statements with at least one statement of ext_alphabet
+    for cA, cB in CLOCK_PAIRS + MORE_PAIRS:
+        alpha = full_alphabet(cA, cB)
+        ext = ext_alphabet(cA, cB)
+        both = alpha + ext
+        bodies = [(True, [x]) for x in ext]
+        for x in ext:
+            for y in both:
+                bodies.append((_is_context(y), [x, y]))
+                if y not in ext:
+                    bodies.append((_is_context(y), [y, x]))
+        for bi, bbody in enumerate(B_BODIES):
+            if cA != cB and bi in (4, 5, 9, 10):
+                continue
+            for b_by_main in (True, False):
+                if tier == 'quick' and bi not in (
+                        XB_MAIN if b_by_main else XB_BY_A):
+                    continue
+                k = 0
+                for always, items in bodies:
+                    if cA != cB and (not b_by_main) != any(
+                            st[0] == 'play' for it in items for st in it):
+                        # another clock: A plays B iff main did not
+                        continue
+                    if not always:
+                        k += 1
+                        if tier == 'quick' and k % 8 != seed % 8:
+                            continue
+                    yield idx, build_prog(cA, cB, items, bbody, b_by_main,
+                                          ext=True)
+                    idx += 1
+    for p in two_clock_programs() + spawn_programs() + rand_programs() + \
+            main_programs() + stop_programs():
         yield idx, p
         idx += 1
+
+
+RAND_KINDS = ['rrand', 'choice', 'rand'] + sorted(X_RAND)
+SEEDS = [0, -1, 2.5, 'abc', 2 ** 40]
+
+
+def rand_programs():
+    """Every builtin random function, drawn by two seeded routines in turn
+    (A's values must be those of A alone), every kind of seed value, the
+    rand_state setter, and children that inherit the generator of the routine
+    that creates them (no seed of their own)."""
+    out = []
+
+    def prog(c, a, b, **kw):
+        clocks = {'s': ['system']}
+        clocks[c] = c05.CLOCKSPEC[c]
+        p = {'clocks': clocks, 'routines': {'A': a, 'B': b}, 'funcs': {},
+             'conds': ['c0'], 'randfam': True,
+             'actors': {'main': [['play', 'A', c, 0], ['play', 'B', c, 0]]},
+             'horizon': 8.0}
+        p.update(kw)
+        return p
+    for i, kind in enumerate(RAND_KINDS):
+        other = RAND_KINDS[(i + 5) % len(RAND_KINDS)]
+        for c in ('s', 't2', 'a'):
+            out.append(prog(
+                c,
+                [['seed', 7]] + [['rand', kind]] * 4 + [['yield', 0.25]] +
+                [['rand', kind]] * 4,
+                [['seed', 9]] + [['rand', other]] * 4 + [['rand', kind]] * 2 +
+                [['yield', 0.25]] + [['rand', kind]] * 4))
+    for sd in SEEDS:
+        for sdb in (9, sd):
+            out.append(prog(
+                's',
+                [['seed', sd], ['rand', 'rrand'], ['rand', 'rand_f'],
+                 ['yield', 0.25], ['seed', sd], ['rand', 'rrand']],
+                [['seed', sdb], ['rand', 'rrand'], ['yield', 0.25],
+                 ['rand', 'choice']]))
+    # rand_state: save, draw, (B draws), restore, draw again
+    for c in ('s', 'a'):
+        out.append(prog(
+            c,
+            [['seed', 7], ['rand', 'rrand'], ['rstate', 'save'],
+             ['rand', 'rrand'], ['yield', 0.25], ['rand', 'rrand'],
+             ['rstate', 'restore'], ['rand', 'rrand'], ['rand', 'rrand']],
+            [['seed', 9], ['rstate', 'save'], ['rand', 'rrand'],
+             ['yield', 0.25], ['rstate', 'restore'], ['rand', 'rrand']]))
+    # inherited generators: A (seeded) creates C, which never seeds itself
+    # and so draws from A's generator; C creates D the same way.  NRT and RT
+    # must agree and fresh runs must agree; A's own values are not compared
+    # with a run without C (one shared stream: the statement's "inherited
+    # seed" case)
+    for c in ('s', 't2', 'a'):
+        for k in (1, 2):
+            for grand in (False, True):
+                cbody = [['rand', 'rrand']] * k + \
+                    ([['spawn', 'D', c]] if grand else []) + \
+                    [['yield', 0.125], ['rand', 'choice']]
+                clocks = {'s': ['system']}
+                clocks[c] = c05.CLOCKSPEC[c]
+                out.append({
+                    'clocks': clocks,
+                    'routines': {
+                        'A': [['seed', 7], ['rand', 'rrand'],
+                              ['spawn', 'C', c], ['yield', 0.25],
+                              ['rand', 'rrand'], ['yield', 0.25],
+                              ['rand', 'rand']],
+                        'B': [['seed', 9]]},
+                    'spawned': {'C': cbody,
+                                'D': [['rand', 'rrand'], ['yield', 0.25],
+                                      ['rand', 'rrand']]},
+                    'funcs': {}, 'conds': ['c0'], 'inherit': True,
+                    'actors': {'main': [['play', 'A', c, 0]]},
+                    'horizon': 8.0})
+    return out
+
+
+def stop_programs():
+    """A routine stops the TempoClock it (or the other routine) runs on
+    with the public TempoClock.stop(); nothing else is due at the instant of
+    the call (RT stops from a helper thread)."""
+    out = []
+    for cA, cB in (('t2', 't2'), ('s', 't2'), ('t2', 's')):
+        for d in (0.5, 1.5):
+            for after in ([['log']], [['yield', 1.0], ['log']],
+                          [['sched', 't2', 0.25, 'f0'], ['yield', 1.0]]):
+                clocks = {'s': ['system'], 't2': ['tempo', 2.0]}
+                out.append({
+                    'clocks': clocks,
+                    'routines': {
+                        'A': [['seed', 7], ['yield', d], ['tstop', 't2']] +
+                             after,
+                        'B': [['seed', 9], ['yield', 0.375], ['log'],
+                              ['yield', 1.0], ['log'], ['yield', 1.0],
+                              ['log']]},
+                    'funcs': X_FUNCS, 'conds': ['c0'], 'ext': True,
+                    'actors': {'main': [['play', 'A', cA, 0],
+                                        ['play', 'B', cB, 0]]},
+                    'horizon': 8.0})
+    return out
+
+
+def main_programs():
+    """The main thread itself sends bundles / re-bases or re-tempos the clock
+    before it starts the routines (NRT: times outside routines are absolute
+    from the start of the score; RT: the start is physical time 0)."""
+    out = []
+    pres = [[['send', 0.25, 40]], [['send', None, 41]], [['sendm', 42]],
+            [['sendb', 0.25, 0.5, 43]], [['sendc', 0, 0.25, 44]],
+            [['tempo', 't2', 4.0]], [['tempo', 't2', 0.5]],
+            [['beats', 't2', 2.0]], [['beats', 't2', -1.0]],
+            [['etempo', 't2', 4.0]],
+            [['beats', 't2', 2.0], ['tempo', 't2', 4.0]],
+            [['sched', 's', 0.25, 'f0']], [['sched', 't2', 0.5, 'f0']],
+            [['sched', 'a', 0.25, 'f0']],
+            [['sched_abs', 's', 0.5, 'f1']], [['sched_abs', 't2', 1.5, 'f1']]]
+    for pre in pres:
+        for cA, cB in (('t2', 't2'), ('s', 't2'), ('t2', 'a')):
+            for quant in (0, None, [2, 0.5], [2, -0.5]):
+                clocks = {'s': ['system'], 't2': ['tempo', 2.0]}
+                for c in (cA, cB):
+                    clocks[c] = c05.CLOCKSPEC[c]
+                if any(st[1] == 'a' for st in pre if st[0] == 'sched'):
+                    clocks['a'] = ['app']
+                out.append({
+                    'clocks': clocks,
+                    'routines': {
+                        'A': [['seed', 7], ['log'], ['yield', 0.5],
+                              ['send', 0.25, 31], ['log'], ['yield', 0.25],
+                              ['log']],
+                        'B': [['seed', 9], ['yield', 0.25], ['log'],
+                              ['sendb', 0, 0.25, 32], ['yield', 1.0],
+                              ['log']]},
+                    'funcs': X_FUNCS, 'conds': ['c0'], 'ext': True,
+                    'actors': {'main': pre + [['play', 'A', cA, quant],
+                                              ['play', 'B', cB, quant]]},
+                    'horizon': 8.0})
+    return out
 
 
 def spawn_programs():
@@ -190,6 +641,32 @@ def two_clock_programs():
 # Canonical observation of one run (mode independent)
 # ---------------------------------------------------------------------------
 
+def _is_packet(val):
+    try:
+        osc10.decode(val)
+        return True
+    except osc10.OscError:
+        return False
+
+
+def _with_blobs(msgs):
+    """flatten()ed messages plus the messages of every packet carried as a
+    blob argument (completion message / bundle): (timetag, address, args,
+    inside_blob).  A blob that is not an OSC packet is plain data."""
+    out = []
+    for tt, addr, args in msgs:
+        out.append((tt, addr, args, False))
+        for tag, val in args:
+            if tag == 'b':
+                try:
+                    inner = osc10.flatten(osc10.decode(val))
+                except osc10.OscError:
+                    continue
+                out += [(t2, 'blob' + a2, g2, True)
+                        for t2, a2, g2, _ in _with_blobs(inner)]
+    return out
+
+
 def observe(prog, res, mode):
     """-> dict(per={routine: [event, ...]}, sends={tag: time}, status)"""
     per = {}
@@ -197,7 +674,18 @@ def observe(prog, res, mode):
     for e in res['trace']:
         k = e[0]
         if k == 'res':
-            per.setdefault(e[1], []).append(['res', e[2], e[4], e[5]])
+            # resumption number, logical seconds / beats and the clock that
+            # resumed the routine (the clock the routine is handed)
+            per.setdefault(e[1], []).append(['res', e[2], e[4], e[5], e[7]])
+        elif k == 'wake':
+            # call of a scheduled plain function / awakeable
+            per.setdefault(e[1], []).append(['wake', e[2], e[4], e[5], e[7]])
+        elif k == 'next':
+            per.setdefault(e[1], []).append(['next', e[2], e[3]])
+        elif k == 'fval':
+            per.setdefault(e[1], []).append(['fval', e[2]])
+        elif k == 'qlog':
+            per.setdefault(e[1], []).append(['qlog', e[2]])
         elif k == 'log':
             per.setdefault(e[1], []).append(['log', e[3], e[4]])
         elif k == 'rand':
@@ -209,23 +697,49 @@ def observe(prog, res, mode):
             sendlog[e[3]] = e[5]
     sends = {}
     counts = {}
+    contents = {}
 
-    def key(addr, tag):
+    def key(addr, tag, args):
         k = str(tag) if addr == '/t' else f'{addr}{tag}'
         counts[k] = counts.get(k, 0) + 1
+        # the arguments as they are on the wire; a blob that carries an OSC
+        # packet is compared through its own messages (its time tags have a
+        # different epoch in the two modes)
+        contents.setdefault(k, []).append(core.canon([
+            [t, 'packet' if t == 'b' and _is_packet(v) else
+             (v.hex() if t == 'b' else v)] for t, v in args]))
+        contents[k].sort()
         return k
+    order = []      # [time of the packet, tag of its first message]
     if mode == 'rt':
         for now, hexd in res['sent']:
             pkt = osc10.decode(bytes.fromhex(hexd))
-            for tt, addr, args in osc10.flatten(pkt):
+            first = True
+            for tt, addr, args, blob in _with_blobs(osc10.flatten(pkt)):
                 tag = args[0][1]
+                k = key(addr, tag, args)
+                if blob and tt is None:
+                    continue        # a message inside a blob has no time
                 if tt is None or tt == 1:
+                    # no time on the wire: the logical time of the send
+                    # (NRT: every message is a bundle at the current time)
                     t = sendlog.get(tag)
                 else:
                     t = (tt - c07.ntp(0.0)) / 2 ** 32
-                sends.setdefault(key(addr, tag), []).append(t)
+                sends.setdefault(k, []).append(t)
+                if first:
+                    order.append([t, k])
+                first = False
+        # the score is ordered by time, packets of one time in the order
+        # in which they were sent
+        if all(t is not None for t, _ in order):
+            order.sort(key=lambda x: round(x[0] * 2 ** 20))
         return {'per': per, 'sends': sends, 'counts': counts,
+                'contents': contents, 'order': [k for _, k in order],
                 'status': res['status']}
+    if res['status'] != 'ok':
+        return {'per': per, 'sends': {}, 'sends_list': {}, 'counts': {},
+                'contents': {}, 'order': [], 'status': res['status']}
     # NRT: what is rendered is the binary score - every message of every
     # (nested) bundle of it, with the time tag of its enclosing bundle
     raw = bytes.fromhex(res['raw'])
@@ -235,10 +749,16 @@ def observe(prog, res, mode):
             n = int.from_bytes(raw[i:i + 4], 'big')
             pkt = osc10.decode(raw[i + 4:i + 4 + n])
             i += 4 + n
-            for tt, addr, args in osc10.flatten(pkt):
-                if addr in ('/t', '/u'):
-                    sends.setdefault(key(addr, args[0][1]), []).append(
-                        tt / 2 ** 32)
+            first = True
+            for tt, addr, args, blob in _with_blobs(osc10.flatten(pkt)):
+                if addr in ('/t', '/u', 'blob/u'):
+                    k = key(addr, args[0][1], args)
+                    if blob and tt is None:
+                        continue
+                    sends.setdefault(k, []).append(tt / 2 ** 32)
+                    if first:
+                        order.append(k)
+                    first = False
     except Exception as e:      # an unreadable score is a difference as well
         sends['unreadable-score'] = repr(e)[:100]
     lst = {}
@@ -246,13 +766,31 @@ def observe(prog, res, mode):
         if b[1][0] == '/t':
             lst.setdefault(str(b[1][1]), []).append(b[0])
     return {'per': per, 'sends': sends, 'sends_list': lst, 'counts': counts,
-            'status': res['status']}
+            'contents': contents, 'order': order, 'status': res['status']}
 
 
-def compare(o_nrt, o_rt):
+def one_thread(prog):
+    """Every routine and function of the program runs on one clock (one RT
+    thread): the order of all its sends is defined."""
+    used = set()
+    for b in list(prog.get('routines', {}).values()) + \
+            list(prog.get('spawned', {}).values()) + \
+            list(prog.get('actors', {}).values()):
+        for st in b:
+            if st[0] in ('play', 'spawn', 'resume') and len(st) > 2:
+                used.add(st[2])
+            elif st[0] in ('sched', 'sched_abs', 'playnb'):
+                used.add(st[1] if st[0] != 'playnb' else st[2])
+    used.discard(None)
+    return len(used) == 1
+
+
+def compare(o_nrt, o_rt, ordered=False):
     dis = []
     if o_rt['status'] != 'ok':
         return [('rt-' + o_rt['status'], 'completes', o_rt['status'], '')]
+    if o_nrt['status'] != 'ok':
+        return [('nrt-' + o_nrt['status'], 'completes', o_nrt['status'], '')]
     for who in sorted(set(o_nrt['per']) | set(o_rt['per'])):
         a = o_nrt['per'].get(who, [])
         b = o_rt['per'].get(who, [])
@@ -286,6 +824,19 @@ def compare(o_nrt, o_rt):
         if o_nrt.get('counts') != o_rt.get('counts'):
             dis.append(('modes-differ-bundle-count', o_nrt.get('counts'),
                         o_rt.get('counts'), 'messages per tag'))
+        if o_nrt.get('contents') != o_rt.get('contents'):
+            ca, cb = o_nrt.get('contents', {}), o_rt.get('contents', {})
+            bad = sorted(k for k in set(ca) | set(cb)
+                         if ca.get(k) != cb.get(k))
+            dis.append(('modes-differ-bundle-content',
+                        {k: ca.get(k) for k in bad[:3]},
+                        {k: cb.get(k) for k in bad[:3]},
+                        'arguments of the messages per tag'))
+        if ordered and not dis and o_nrt.get('order') != o_rt.get('order'):
+            dis.append(('modes-differ-bundle-order', o_nrt.get('order'),
+                        o_rt.get('order'),
+                        'packets in score order / in wire order sorted by '
+                        'time (first tag of each packet)'))
         sa, sb = o_nrt['sends'], o_rt['sends']
         if set(sa) != set(sb):
             dis.append(('modes-differ-bundles-sent', sorted(sa), sorted(sb),
@@ -304,10 +855,9 @@ def compare(o_nrt, o_rt):
 
 def work_nrt(job):
     """NRT observations (and raw score digest) of a batch of programs."""
-    from mc import rtprog
     out = []
     for idx, prog in job['progs']:
-        res = rtprog.run_nrt(prog)
+        res = run_nrt(prog)
         o = observe(prog, res, 'nrt')
         o['raw'] = core.digest(res['raw'])
         out.append((idx, o))
@@ -315,24 +865,22 @@ def work_nrt(job):
 
 
 def work_rt(job):
-    from mc import rtprog
     out = []
     for idx, prog in job['progs']:
-        _, ch, res = rtprog.run_rt(prog, job.get('prefix', []))
+        _, ch, res = run_rt(prog, job.get('prefix', []))
         out.append((idx, observe(prog, res, 'rt'), res['steps']))
     return {'obs': out}
 
 
 def work_rt_dev(job):
     """Every single deviation (one preemption or one late timer)."""
-    from mc import rtprog
     from mc.engines import schedx
     out = []
     for idx, prog in job['progs']:
         runs = []
 
         def run(prefix, prog=prog):
-            return rtprog.run_rt(prog, prefix)
+            return run_rt(prog, prefix)
 
         def on_result(choices, points, res, prog=prog):
             runs.append((list(choices), observe(prog, res, 'rt')))
@@ -353,12 +901,11 @@ def silence_others(prog):
 
 
 def work_indep(job):
-    from mc import rtprog
     acc = progenum.Acc(max_samples=1)
     for idx, prog in job['progs']:
-        a = observe(prog, rtprog.run_nrt(prog), 'nrt')
+        a = observe(prog, run_nrt(prog), 'nrt')
         b = observe(silence_others(prog),
-                    rtprog.run_nrt(silence_others(prog)), 'nrt')
+                    run_nrt(silence_others(prog)), 'nrt')
         ra = [e for e in a['per'].get('A', []) if e[0] == 'rand']
         rb = [e for e in b['per'].get('A', []) if e[0] == 'rand']
         case = {'prog': prog, 'part': 'independence'}
@@ -374,13 +921,12 @@ def work_indep(job):
 
 
 def replay(job):
-    from mc import rtprog
     case = job['case']
     prog = case['prog']
     if case.get('part') == 'independence':
-        a = observe(prog, rtprog.run_nrt(prog), 'nrt')
+        a = observe(prog, run_nrt(prog), 'nrt')
         b = observe(silence_others(prog),
-                    rtprog.run_nrt(silence_others(prog)), 'nrt')
+                    run_nrt(silence_others(prog)), 'nrt')
         ra = [e for e in a['per'].get('A', []) if e[0] == 'rand']
         rb = [e for e in b['per'].get('A', []) if e[0] == 'rand']
         return {'violates': ra != rb, 'with': ra, 'without': rb}
@@ -390,13 +936,15 @@ def replay(job):
         import sys
         import json
         outs = []
-        for hs in ('0', case.get('hashseed', '1')):
+        for hs in ('0', case.get('hashseed', '1')) * 6:
+            if len(outs) >= 2 and len(outs) % 2 == 0 and \
+                    outs[-1] != outs[-2]:
+                break
             code = ('import sys, json; sys.path[:0] = [%r, %r];'
                     'import sc3; sc3.init("nrt", verbosity="CRITICAL");'
-                    'from mc import rtprog;'
                     'from mc.checks import c10;'
                     'p = json.loads(sys.argv[1]);'
-                    'r = rtprog.run_nrt(p);'
+                    'r = c10.run_nrt(p);'
                     'print(json.dumps([r["raw"], '
                     'c10.observe(p, r, "nrt")["per"]]))') % (core.REPO,
                                                              core.VERIF)
@@ -406,13 +954,19 @@ def replay(job):
                                text=True, env=env, timeout=120)
             outs.append(p.stdout.strip().splitlines()[-1]
                         if p.stdout.strip() else p.stderr[-300:])
-        return {'violates': outs[0] != outs[1],
-                'raw': [o[-200:] for o in outs]}
-    # mode difference: NRT here, RT in a sub-process worker of mode rt
-    o_nrt = observe(prog, rtprog.run_nrt(prog), 'nrt')
-    o_rt = _rt_in_subprocess(prog, case.get('choices', []))
-    dis = compare(o_nrt, o_rt)
-    want = job['kind'].replace('-under-deviation', '')
+        return {'violates': outs[-1] != outs[-2],
+                'raw': [o[-200:] for o in outs[-2:]]}
+    # mode difference: NRT here, RT in a sub-process worker of mode rt.
+    # A difference caused by an unseeded generator may by chance not show
+    # in one pair of runs (a coin has two values): any differing pair of
+    # runs is a witness, so a few pairs are tried.
+    want = base_kind(job['kind'])
+    for attempt in range(6):
+        o_nrt = observe(prog, run_nrt(prog), 'nrt')
+        o_rt = _rt_in_subprocess(prog, case.get('choices', []))
+        dis = compare(o_nrt, o_rt, one_thread(prog))
+        if any(d[0] == want for d in dis):
+            break
     return {'violates': any(d[0] == want for d in dis),
             'disagreements': [[d[0], repr(d[1])[:300], repr(d[2])[:300]]
                               for d in dis],
@@ -426,9 +980,9 @@ def _rt_in_subprocess(prog, choices):
     import json
     code = ('import sys, json; sys.path[:0] = [%r, %r];'
             'from mc import seams; seams.init_rt_virtual();'
-            'from mc import rtprog; from mc.checks import c10;'
+            'from mc.checks import c10;'
             'p = json.loads(sys.argv[1]);'
-            '_, _, r = rtprog.run_rt(p, json.loads(sys.argv[2]));'
+            '_, _, r = c10.run_rt(p, json.loads(sys.argv[2]));'
             'print(json.dumps(c10.observe(p, r, "rt")))') % (core.REPO,
                                                              core.VERIF)
     env = dict(__import__('os').environ, PYTHONHASHSEED='0')
@@ -452,25 +1006,100 @@ def chunked(items, n):
     return [items[i:i + n] for i in range(0, len(items), n)]
 
 
+def has_stmt(prog, *ops):
+    bodies = list(prog.get('routines', {}).values()) + \
+        list(prog.get('spawned', {}).values()) + \
+        list(prog.get('actors', {}).values())
+    return any(st[0] in ops for b in bodies for st in b)
+
+
+def family(prog):
+    """Suffix of the violation kind for programs that use a part of the API
+    with a recorded finding of its own, so that such a finding never hides
+    (or is hidden by) a difference of ordinary programs."""
+    if has_stmt(prog, 'clear'):
+        return '@clear'
+    if has_stmt(prog, 'tstop'):
+        return '@tstop'
+    if app_resched(prog):
+        return '@app-resched'
+    return ''
+
+
+def app_resched(prog):
+    """Both routines on AppClock and A pauses / resets B and later resumes /
+    plays it again (B is scheduled once more while it may be pending)."""
+    plays = [st for b in list(prog['routines'].values()) +
+             list(prog['actors'].values()) for st in b if st[0] == 'play']
+    if not plays or any(len(st) < 3 or st[2] not in ('a', None)
+                        for st in plays):
+        return False
+    a = prog['routines'].get('A', [])
+    for i, st in enumerate(a):
+        if st[0] in ('pause', 'reset') and st[1] == 'B' and any(
+                t[0] in ('resume', 'play') and t[1] == 'B'
+                for t in a[i + 1:]):
+            return True
+    return False
+
+
+def _pred_b_waits(v):
+    b = v['case']['prog']['routines'].get('B', [])
+    return len(b) > 1 and b[1][0] in ('wait', 'fwait')
+
+
+PREDICATES = {
+    'has_clear': lambda v: has_stmt(v['case']['prog'], 'clear'),
+    'has_tstop': lambda v: has_stmt(v['case']['prog'], 'tstop'),
+    'app_resched_waiter': lambda v: app_resched(v['case']['prog']) and
+    _pred_b_waits(v),
+}
+
+
+def base_kind(kind):
+    return kind.split('@')[0].replace('-under-deviation', '')
+
+
+def n_routines(o):
+    return len([w for w in o['per'] if w in ('A', 'B', 'C', 'D')])
+
+
 def main(ctx):
     ctx.rule = (
         'Programs: routine A (seeded) of <=2 statements (quick: plus a 1/8 '
         'slice of the 3-statement bodies chosen by the seed; thorough: all) '
         'over yield/log/send/play/pause/resume/stop/tempo/wait/signal/rand/'
-        'seed, an interferer B from 8 bodies, 5 clock pairs over SystemClock,'
-        ' TempoClock(2), AppClock, B started by main or by A. Each is run in '
+        'seed, an interferer B from 9 bodies, 6 clock pairs over SystemClock,'
+        ' TempoClock(2), AppClock, B started by main or by A; plus every '
+        'body of <=2 statements that contains one of the added statements '
+        '(zero/int/bool yields, send_msg, negative/zero/None latencies, '
+        'refused nested bundle, completion bundle in a blob, raise, '
+        'sched/sched_abs of functions and awakeables, rand_state, slower '
+        'tempo, etempo, play with inherited clock / default quant / quant '
+        'and phase, reset, next, unhang, bare signal/set, FlowVar, clear) '
+        '(quick: all with one of 9 context statements, 1/8 slice of the '
+        'others, 7+3 of the 11 B bodies); plus families: every builtin '
+        'random function x 3 clocks, seed values, rand_state, inherited '
+        'generators, main-thread actions before the start x quants, a task '
+        'pending on two clocks. Each is run in '
         'NRT and in RT-virtual; per-routine event sequences (resumption '
-        'times/beats, logs, random values, exceptions) and bundle times must '
-        'be equal. Non-trivial = the program makes both routines run.')
+        'times/beats/clock, logs, random values, exceptions, function '
+        'calls, clock queries), the time and the arguments of every message '
+        '(also inside blobs) per tag, the number of copies and, when all '
+        'tasks share one clock, the order of the packets must '
+        'be equal. Non-trivial = the program makes two routines run.')
     ctx.assumptions += [
         'RT runs use the default schedule (no deviation); thorough adds every '
-        'combination of <=2 late timers for all programs without AppClock '
+        'combination of <=2 late timers for the programs of the original '
+        'grammar without AppClock and <=1 for the added ones '
         '(quick: <=1 late timer on a seed-selected 1/16 of them)',
         'events of different routines at the same logical instant are not '
         'ordered against each other (RT uses one thread per clock)',
-        'every routine that draws random numbers seeds itself first']
+        'every routine that draws random numbers seeds itself first or is '
+        'created inside a seeded routine']
     progs = list(programs(ctx.tier, ctx.seed))
     byidx = dict(progs)
+    fam = {i: family(p) for i, p in progs}
     batches = chunked(progs, 200)
     # NRT pass (hash seed 0) and RT pass
     nrt = {}
@@ -485,21 +1114,26 @@ def main(ctx):
             steps += st
             prog = byidx[idx]
             case = {'prog': prog, 'choices': []}
-            for kind, exp, obs, detail in compare(nrt[idx], o):
-                ctx.violation({'kind': kind, 'case': case, 'expected': exp,
+            for kind, exp, obs, detail in compare(nrt[idx], o, one_thread(byidx[idx])):
+                ctx.violation({'kind': kind + fam[idx], 'case': case,
+                               'expected': exp,
                                'observed': obs, 'detail': detail,
                                'size': len(core.canon(prog))})
             ctx.evaluations += 1
             ctx.states += 1
             ctx.traces += 2
-            both = len(o['per']) > 1
+            both = n_routines(o) > 1
             if both:
                 ctx.nontrivial += 1
                 if len(ctx.samples) < 4:
                     ctx.samples.append(prog)
             ctx.outcomes.add(core.digest(o['per']))
     ctx.transitions += steps
-    ctx.bounds['nrt-vs-rt default schedule'] = {'programs': len(progs)}
+    ctx.bounds['nrt-vs-rt default schedule'] = {
+        'programs': len(progs),
+        'with added statements': len([1 for _, p in progs if p.get('ext')]),
+        'random / seed / inheritance families': len(
+            [1 for _, p in progs if p.get('randfam') or p.get('inherit')])}
     # determinism across hash seeds
     for hs in ('1', str(1000 + ctx.seed)):
         pool = ctx.pool('nrt', hashseed=hs)
@@ -512,7 +1146,7 @@ def main(ctx):
                 n += 1
                 if o['raw'] != nrt[idx]['raw'] or o['per'] != nrt[idx]['per']:
                     ctx.violation({
-                        'kind': 'nrt-score-depends-on-hash-seed',
+                        'kind': 'nrt-score-depends-on-hash-seed' + fam[idx],
                         'case': {'prog': byidx[idx], 'part': 'hashseed',
                                  'hashseed': hs},
                         'expected': nrt[idx]['raw'], 'observed': o['raw'],
@@ -521,20 +1155,31 @@ def main(ctx):
         ctx.bounds[f'nrt determinism hashseed {hs}'] = {'programs': n}
         ctx.evaluations += n
     # random stream independence
-    rnd = [(i, p) for i, p in progs if p.get('spawn')] + \
+    rnd = [(i, p) for i, p in progs if p.get('spawn') or p.get('randfam')] + \
           [(i, p) for i, p in progs
-           if len(p['routines']['A']) < 8 and not p.get('spawn') and any(st[0] == 'rand' for st in p['routines']['A'])
+           if len(p['routines']['A']) < 8 and not p.get('spawn')
+           and not p.get('randfam') and not p.get('inherit')
+           and any(st[0] == 'rand' for st in p['routines']['A'])
            and any(st[0] == 'rand' for st in p['routines']['B'])]
     progenum.run(ctx, MODNAME, 'work_indep',
                  [{'progs': b} for b in chunked(rnd, 200)], mode='nrt',
                  bound='random independence')
-    if True:
-        noapp = [(i, p) for i, p in progs if 'a' not in p['clocks']
-                 and not p.get('twoclock')]
-        if ctx.tier == 'thorough':
-            sel, ml = noapp, 2
-        else:
-            sel, ml = noapp[core.pick_slice(ctx.seed, 16)::16], 1
+    # RT under late timers.  Not for AppClock (documented drift), tasks
+    # pending on two clocks, etempo (defined at the *physical* time of
+    # the call, so lateness legitimately changes the result) and
+    # TempoClock.stop() (RT stops the clock from a helper thread: what is
+    # still awakened around the call depends on the schedule).
+    noapp = [(i, p) for i, p in progs if 'a' not in p['clocks']
+             and not p.get('twoclock')
+             and not has_stmt(p, 'etempo', 'tstop')]
+    old = [(i, p) for i, p in noapp if not p.get('ext')]
+    new = [(i, p) for i, p in noapp if p.get('ext')]
+    if ctx.tier == 'thorough':
+        plan = [(old, 2), (new, 1)]
+    else:
+        k = core.pick_slice(ctx.seed, 16)
+        plan = [(old[k::16] + new[k::16], 1)]
+    for sel, ml in plan:
         n = 0
         for res in ctx.map('rt', MODNAME, 'work_rt_dev',
                            [{'progs': b, 'max_pre': 0, 'max_late': ml}
@@ -543,15 +1188,18 @@ def main(ctx):
                 for choices, o in runs:
                     n += 1
                     case = {'prog': byidx[idx], 'choices': choices}
-                    for kind, exp, obs, detail in compare(nrt[idx], o):
+                    for kind, exp, obs, detail in compare(nrt[idx], o, one_thread(byidx[idx])):
                         ctx.violation({
-                            'kind': kind + '-under-deviation', 'case': case,
+                            'kind': kind + '-under-deviation' + fam[idx],
+                            'case': case,
                             'expected': exp, 'observed': obs,
                             'detail': detail,
                             'size': 10 ** 6 + len(core.canon(byidx[idx]))})
         ctx.evaluations += n
-        ctx.bounds[f'rt under <={ml} late timers (no preemption: preempting '
-                   'the main thread between its set-up calls changes the '
-                   'program)'] = {
-            'programs': len(sel), 'executions': n}
+        lab = (f'rt under <={ml} late timers (no preemption: preempting '
+               'the main thread between its set-up calls changes the '
+               'program)')
+        cur = ctx.bounds.setdefault(lab, {'programs': 0, 'executions': 0})
+        cur['programs'] += len(sel)
+        cur['executions'] += n
     ctx.extra['programs'] = len(progs)
